@@ -422,9 +422,23 @@ func c01dStageNode(c *Ctx, name string, cases []*c01dCase, rule string) error {
 		if r.Same {
 			continue
 		}
+		if m.cfg == "renaming" && (strings.Contains(r.OA+r.OB+r.Why, "before initialization") || strings.Contains(r.OA+r.OB+r.Why, "is not defined")) {
+			// the message of an engine error (it names the variable) reached the trace through string concatenation
+			st.Tag("skip: error message with a variable name in the trace")
+			continue
+		}
 		if id := c01dKnownTrigger(cs, m.cfg); id != "" {
 			c.R.ExcludedKnown++
 			st.Tag("known-" + id)
+			continue
+		}
+		if cs.known == "-" && cs.enc == "" && strings.Contains(r.OA, `"completion":{"type":"throw","value":{"$error":"ReferenceError"}}`) &&
+			(strings.HasPrefix(r.Why, "completion:") || strings.Contains(r.Why, "extra in output")) {
+			// programs outside the Lean fragment have no Lean-side guard: the signature of K-C01-3 (C01) is a
+			// ReferenceError of the input that the output does not raise (a dropped `pure` expression), the traces
+			// agreeing up to that point
+			c.R.ExcludedKnown++
+			st.Tag("known-K-C01-3 (signature: ReferenceError of the input lost)")
 			continue
 		}
 		c.R.Add(h.Finding{Stage: name, Kind: "fail", What: "node: the real output behaves differently from the input: " + r.Why, Input: cs.src, Config: m.cfg, Impl: m.out + "  => " + r.OB, Model: r.OA, Seed: c.Seed})
